@@ -1219,6 +1219,23 @@ def zooModel : List (String × String) :=
    ("slice_forin_shrink_during", "0,1,2|go:[1 2 3]"),
    ("struct_promoted_enumeration", "true,x,true|Y,ZIn|Y,ZIn"),
    ("nested_container_identity", "false,false,true"),
-   ("setlength_thrown_value", "object:TypeError: 42|go:[1 2 3]")]
+   ("setlength_thrown_value", "number:42|go:[1 2 3]"),
+   ("setlength_huge", "caught:RangeError|go:[1 2 3]"),
+   ("setlength_2p32", "caught:RangeError|go:[1 2 3]"),
+   ("setlength_fraction", "caught:RangeError|go:[1 2 3]"),
+   ("setlength_nan", "caught:RangeError|go:[1 2 3]"),
+   ("setlength_string", "caught:RangeError|go:[1 2 3]"),
+   ("setlength_negative", "caught:RangeError|go:[1 2 3]"),
+   ("define_accessor_on_slice", "caught:TypeError|go:[1 2 3]"),
+   ("define_value_on_slice", "v:7|go:[7 2 3]"),
+   ("store_number_into_struct_elem", "caught:TypeError|go:[{1 []}]|[[1]]|false|[[1 2]]|int:1"),
+   ("store_number_into_slice_elem", "caught:TypeError|go:[{1 []}]|[[1]]|false|[[1 2]]|int:1"),
+   ("store_array_into_slice_elem", "caught:TypeError|go:[{1 []}]|[[1]]|false|[[1 2]]|int:1"),
+   ("store_number_into_pointer_elem", "caught:TypeError|go:[{1 []}]|[[1]]|false|[[1 2]]|int:1"),
+   ("store_null_into_pointer_elem", "stored:undefined|go:[{1 []}]|[[1]]|true|[[1 2]]|int:1"),
+   ("store_bridged_pointer_into_pointer_elem", "stored:9|go:[{1 []}]|[[1]]|false|[[1 2]]|int:1"),
+   ("store_long_array_into_array_elem", "caught:TypeError|go:[{1 []}]|[[1]]|false|[[1 2]]|int:1"),
+   ("store_utf16_string_into_interface_elem", "stored:65|go:[{1 []}]|[[1]]|false|[[1 2]]|[]uint16:[65]"),
+   ("nil_func_reads_undefined", "undefined,undefined|go:[{1 []}]|[[1]]|false|[[1 2]]|int:1")]
 
 end OttoVerif.C16
